@@ -16,7 +16,7 @@ constant `MAX_BACKEND_RETRY`.
 | `connFailed`     | `conn_failed : AtomicBool`                                                          |
 | `retry`          | `retry_state : Option<RetryState>` of `handle_backend` between two connections      |
 | `tasks`,`packets`| the two `VecDeque`s of `handle_conn` (a packet is identified with its task)         |
-| `retryTimes`     | `retry_times_opt`: `Some` only during the *first* poll of `handle_conn`             |
+| `retryTimes`     | `retry_times_opt`: set from the inherited `RetryState`, kept for the life of the connection, cleared when a reply leaves `tasks` empty (F08b fix, commit 0e64416) |
 | `taskEmpty`, `responseReceived` | the two flags of the timeout check                                   |
 | `connId`, `written`, `nread` | ghost: number of connections so far, requests `start_send`-ed and items read on the current connection |
 
@@ -29,8 +29,9 @@ only decide *when* `write` / `item` events happen, so they do not appear.  A pol
 Events that cannot occur in the current phase leave the state unchanged.
 
 ## Quirks kept
-* `retry_times_opt` is taken from `retry_state_opt` in the first poll only: a connection that
-  breaks in a later poll restarts the retry count at 1 (`retryTimes = none ⇒ 0 + 1`).
+* `retry_times_opt` belongs to the connection, not to a task: tasks that arrive on a connection
+  opened for a retry inherit its count, and a connection error with an empty queue still hands
+  `times + 1` (with no tasks) to the next connection.
 * a reply with no task waiting, or a packet written when `tasks` is shorter than `packets`
   (possible after an unsolicited reply), is `BackendError::InvalidState` = connection error.
 * a `Some(Err(e))` stream item (decode error) is *handed to the front task* through the handler
@@ -219,7 +220,10 @@ def step (s : St) : Ev → St × Out
       let s1 := { s with responseReceived := true, nread := s.nread + 1 }
       match s.tasks with
       | [] => connErr s1 s.retryTimes .other
-      | t :: rest => ({ s1 with tasks := rest }, deliver t it)
+      | t :: rest =>
+        -- `if tasks.is_empty() { retry_times_opt = None }` after `handle_task`
+        ({ s1 with tasks := rest, retryTimes := if rest.isEmpty then none else s.retryTimes },
+         deliver t it)
     | _ => (s, [])
   | .peerClosed =>
     match s.phase with
@@ -228,12 +232,11 @@ def step (s : St) : Ev → St × Out
   | .pollEnd tick =>
     match s.phase with
     | .up =>
-      let s1 := { s with retryTimes := none }
       if tick then
         if !s.taskEmpty && !s.responseReceived then
-          connErr s1 (some MAX_BACKEND_RETRY) .other
-        else ({ s1 with taskEmpty := s.tasks.isEmpty, responseReceived := false }, [])
-      else (s1, [])
+          connErr s (some MAX_BACKEND_RETRY) .other
+        else ({ s with taskEmpty := s.tasks.isEmpty, responseReceived := false }, [])
+      else (s, [])
     | _ => (s, [])
 
 /-- run a list of events, collecting every result in order -/
